@@ -1,6 +1,159 @@
-(* C20 - lemmas (work in progress) *)
-From Coq Require Import List NArith Bool.
+(* C20 - lemmas about the model in Model/C20.v. *)
+From Coq Require Import List NArith Bool Lia ZifyBool Ascii String.
 From Orso Require Import Gen.C20_LogKeys Model.C20.
 Import ListNotations.
+Local Open Scope N_scope.
 
-Lemma placeholder_true : True. Proof. exact I. Qed.
+(* ------------------------------------------------------------------ *)
+(* generic list/bool facts *)
+Lemma bool_eq_iff (a b : bool) : (a = true <-> b = true) -> a = b.
+Proof. destruct a, b; intros [H1 H2]; try reflexivity; [symmetry; now apply H1 | now apply H2]. Qed.
+
+Lemma existsb_map_c {A B} (f : B -> bool) (g : A -> B) l :
+  existsb f (map g l) = existsb (fun x => f (g x)) l.
+Proof. induction l as [|x l IH]; cbn; [reflexivity | now rewrite IH]. Qed.
+
+Lemma existsb_ext_c {A} (f g : A -> bool) l : (forall x, f x = g x) -> existsb f l = existsb g l.
+Proof. intros H; induction l as [|x l IH]; cbn; [reflexivity | now rewrite H, IH]. Qed.
+
+Lemma existsb_orb_c {A} (f g : A -> bool) l :
+  existsb (fun x => f x || g x) l = existsb f l || existsb g l.
+Proof.
+  induction l as [|x l IH]; cbn; [reflexivity|]. rewrite IH.
+  destruct (f x), (g x), (existsb f l), (existsb g l); reflexivity.
+Qed.
+
+Lemma suffixes_map f s : suffixes (map f s) = map (map f) (suffixes s).
+Proof. induction s as [|c s IH]; cbn; [reflexivity | now rewrite IH]. Qed.
+
+Lemma suffixes_cons c s : suffixes (c :: s) = (c :: s) :: suffixes s.
+Proof. reflexivity. Qed.
+
+Lemma suffixes_self s : In s (suffixes s).
+Proof. destruct s; cbn; now left. Qed.
+
+Lemma suffixes_trans s1 s : In s1 (suffixes s) -> forall s2, In s2 (suffixes s1) -> In s2 (suffixes s).
+Proof.
+  induction s as [|c s IH]; intros H s2 H2.
+  - cbn in H. destruct H as [<-|[]]. exact H2.
+  - rewrite suffixes_cons in H. destruct H as [<-|H]; [exact H2|].
+    rewrite suffixes_cons. right. now apply IH with (s2 := s2) in H.
+Qed.
+
+(* ------------------------------------------------------------------ *)
+(* lower-casing *)
+Lemma lower_c_10 c : (lower_c c =? 10) = (c =? 10).
+Proof.
+  unfold lower_c. destruct ((65 <=? c) && (c <=? 90)) eqn:E; [|reflexivity].
+  apply andb_true_iff in E as [E1 E2]. apply N.leb_le in E1, E2.
+  destruct (N.eqb_spec (c + 32) 10), (N.eqb_spec c 10); try reflexivity; lia.
+Qed.
+
+(* ------------------------------------------------------------------ *)
+(* what a pattern of the shape  (.* )? literals $?  means under search + IGNORECASE *)
+Inductive meaning := MEnds (l : text) | MContains (l : text).
+
+Definition eval_meaning (k : text) (m : meaning) : bool :=
+  match m with
+  | MEnds l => ends_with l (lower k) || ends_with (l ++ [10]) (lower k)
+  | MContains l => contains l (lower k)
+  end.
+
+(* literals, optionally closed by a single final '$' *)
+Fixpoint lits_of (p : list ritem) : option (text * bool) :=
+  match p with
+  | [] => Some ([], false)
+  | REnd :: r => match r with [] => Some ([], true) | _ => None end
+  | RLit c :: r => match lits_of r with Some (l, e) => Some (c :: l, e) | None => None end
+  | RDotStar :: _ => None
+  end.
+
+Definition classify (meth : re_method) (ic : bool) (p : list ritem) : option meaning :=
+  match meth, ic with
+  | ReSearch, true =>
+      match lits_of (match p with RDotStar :: r => r | _ => p end) with
+      | Some (l, true) => Some (MEnds (lower l))
+      | Some (l, false) => Some (MContains (lower l))
+      | None => None
+      end
+  | _, _ => None
+  end.
+
+Lemma m_here_lits p : forall l s, lits_of p = Some (l, false) ->
+  m_here true false p s = is_prefix (lower l) (lower s).
+Proof.
+  induction p as [|it p IH]; intros l s H.
+  - cbn in H. injection H as <-. reflexivity.
+  - destruct it as [c| |].
+    + cbn [lits_of] in H. destruct (lits_of p) as [[l' e]|] eqn:E; [|discriminate].
+      injection H as <- ->. destruct s as [|x s]; [reflexivity|].
+      cbn [m_here lower map is_prefix ci_eq]. rewrite (IH l' s eq_refl). reflexivity.
+    + discriminate.
+    + cbn [lits_of] in H. destruct p; discriminate.
+Qed.
+
+Lemma m_here_lits_end p : forall l s, lits_of p = Some (l, true) ->
+  m_here true false p s = teqb (lower s) (lower l) || teqb (lower s) (lower l ++ [10]).
+Proof.
+  induction p as [|it p IH]; intros l s H.
+  - discriminate.
+  - destruct it as [c| |].
+    + cbn [lits_of] in H. destruct (lits_of p) as [[l' e]|] eqn:E; [|discriminate].
+      injection H as <- ->. destruct s as [|x s]; [reflexivity|].
+      cbn [m_here lower map teqb ci_eq app]. rewrite (IH l' s eq_refl).
+      rewrite (N.eqb_sym (lower_c c)). now rewrite andb_orb_distrib_r.
+    + discriminate.
+    + cbn [lits_of] in H. destruct p; [|discriminate]. injection H as <-.
+      cbn [m_here]. rewrite andb_true_r.
+      destruct s as [|x [|y s]]; cbn [at_end lower map teqb app].
+      * reflexivity.
+      * now rewrite lower_c_10, andb_true_r.
+      * now rewrite andb_false_r.
+Qed.
+
+Lemma m_here_star_unfold ic full p s :
+  m_here ic full (RDotStar :: p) s =
+  m_here ic full p s || match s with x :: s' => negb (x =? 10) && m_here ic full (RDotStar :: p) s' | [] => false end.
+Proof. destruct s; reflexivity. Qed.
+
+Lemma star_in_suffix ic p s : m_here ic false (RDotStar :: p) s = true ->
+  existsb (m_here ic false p) (suffixes s) = true.
+Proof.
+  induction s as [|x s IH]; intros H; rewrite m_here_star_unfold in H.
+  - rewrite orb_false_r in H. cbn. now rewrite H.
+  - rewrite suffixes_cons. cbn [existsb]. apply orb_true_iff in H as [H|H].
+    + now rewrite H.
+    + apply andb_true_iff in H as [_ H]. rewrite (IH H). apply orb_true_r.
+Qed.
+
+Lemma search_dotstar ic p s :
+  existsb (m_here ic false (RDotStar :: p)) (suffixes s) = existsb (m_here ic false p) (suffixes s).
+Proof.
+  apply bool_eq_iff. rewrite !existsb_exists. split.
+  - intros [s1 [Hin H]]. apply star_in_suffix in H. apply existsb_exists in H as [s2 [Hin2 H2]].
+    exists s2. split; [|exact H2]. eapply suffixes_trans; eassumption.
+  - intros [s1 [Hin H]]. exists s1. split; [exact Hin|]. rewrite m_here_star_unfold, H. reflexivity.
+Qed.
+
+Lemma ends_with_lower l k : ends_with l (lower k) = existsb (fun s => teqb (lower s) l) (suffixes k).
+Proof. unfold ends_with. unfold lower at 1. rewrite suffixes_map, existsb_map_c. reflexivity. Qed.
+
+Lemma contains_lower l k : contains l (lower k) = existsb (fun s => is_prefix l (lower s)) (suffixes k).
+Proof. unfold contains. unfold lower at 1. rewrite suffixes_map, existsb_map_c. reflexivity. Qed.
+
+Lemma classify_sound meth ic p m : classify meth ic p = Some m ->
+  forall k, re_run meth ic p k = eval_meaning k m.
+Proof.
+  unfold classify. destruct meth; try discriminate. destruct ic; try discriminate.
+  intros H k. cbn [re_run].
+  assert (E : existsb (m_here true false p) (suffixes k) =
+              existsb (m_here true false (match p with RDotStar :: r => r | _ => p end)) (suffixes k)).
+  { destruct p as [|[c| |] r]; try reflexivity. apply search_dotstar. }
+  rewrite E. clear E.
+  destruct (lits_of (match p with RDotStar :: r => r | _ => p end)) as [[l e]|] eqn:L; [|discriminate].
+  destruct e; injection H as <-; cbn [eval_meaning].
+  - rewrite (existsb_ext_c _ _ _ (fun s => m_here_lits_end _ l s L)).
+    rewrite existsb_orb_c, !ends_with_lower. reflexivity.
+  - rewrite (existsb_ext_c _ _ _ (fun s => m_here_lits _ l s L)).
+    rewrite contains_lower. reflexivity.
+Qed.
